@@ -115,6 +115,22 @@ func runRsem(c *Ctx) {
 	}
 }
 
+// recent rows per tokenizer, for scan-like sequences through one matcher scratch
+var rsemRecent = map[string][][]byte{}
+
+func seqStrings(seq [][]byte) []string {
+	out := make([]string, len(seq))
+	for i, b := range seq {
+		out[i] = string(b)
+	}
+	return out
+}
+
+func mtermKey(q *bs.Query, row []byte) string {
+	b, _ := json.Marshal(q)
+	return string(b) + string(row)
+}
+
 func rsemRowCase(c *Ctx, sh *shard, props []string) {
 	row := c.genRow()
 	rowBytes, err := json.Marshal(row)
@@ -148,6 +164,13 @@ func rsemRowCase(c *Ctx, sh *shard, props []string) {
 		}
 	}
 
+	defer func() {
+		r := append(rsemRecent[tk.name], rowBytes)
+		if len(r) > 5 {
+			r = r[len(r)-5:]
+		}
+		rsemRecent[tk.name] = r
+	}()
 	h := hitsOf(ems, tk.oracle)
 	nq := 3
 	for qi := 0; qi < nq; qi++ {
@@ -161,6 +184,19 @@ func rsemRowCase(c *Ctx, sh *shard, props []string) {
 		}
 		if hasR {
 			e := c.genRExpr(2, h)
+			if qi == 0 && len(ems) > 0 {
+				// an Or whose legs are all satisfied by this very row (each leg names one of its text leaves)
+				var legs []bs.RegexExpression
+				for _, em := range ems {
+					if em.Kind == 2 && len(legs) < 3 && c.chance(0.7) {
+						legs = append(legs, bs.FieldRegex(em.Path, []string{".", "^", "(?s).*"}[c.intn(3)]))
+					}
+				}
+				if len(legs) >= 2 {
+					e = bs.RegexExpression{ExpressionType: bs.RegexExpressionOr, Children: legs}
+					c.dist("rexpr_nodes", "all-legs-hit-or")
+				}
+			}
 			q.Regex = &bs.RegexQuery{Expression: &e}
 		} else if c.chance(0.5) {
 			q.Regex = &bs.RegexQuery{}
@@ -180,6 +216,27 @@ func rsemRowCase(c *Ctx, sh *shard, props []string) {
 			continue
 		}
 		refobs, _ := bs.VerifReferenceMatchRow(q, rowBytes, tk.fn)
+		// the same matcher and scratch over a sequence of rows, as a block scan does: every verdict must
+		// equal the fresh-scratch verdict (which the CMatch case ties to the model)
+		{
+			seq := append([][]byte{rowBytes}, rsemRecent[tk.name]...)
+			seq = append(seq, rowBytes)
+			shared, err := bs.VerifMatchRowsShared(q, seq, tk.fn)
+			must(err)
+			for si, rb := range seq {
+				fresh, _ := bs.VerifMatchRow(q, rb, tk.fn)
+				if shared[si] != fresh {
+					kind := "c02"
+					if fresh {
+						kind = "c01"
+					}
+					c.violation("matcher-scratch-leak-"+kind, fmt.Sprintf("row %d of a scanned sequence: shared-scratch verdict %v, fresh verdict %v (matcher state leaks between rows)", si, shared[si], fresh),
+						map[string]any{"rows": seqStrings(seq[:si+1]), "bloom": q.Bloom, "regex": q.Regex})
+					break
+				}
+			}
+			c.count(props, fmt.Sprintf("seq:%d:%s", len(seq), mtermKey(q, rowBytes)), len(seq) > 2, nil)
+		}
 		pats := map[string]bool{}
 		if q.Regex != nil && q.Regex.Expression != nil {
 			regexPatterns(q.Regex.Expression, pats)
@@ -389,6 +446,42 @@ func rsemScenario(c *Ctx, sh *shard, scen int) {
 			off += len(buf)
 		}
 		fm.BlockFilterRegionOffset, fm.BlockFilterRegionSize = off, 0
+		// file-level filters are public fields: an external writer may provide any subset of them
+		{
+			fs, ts, fts := map[string]bool{}, map[string]bool{}, map[string]bool{}
+			for _, part := range sortedKeys(byPart) {
+				for _, r := range byPart[part] {
+					rb, _ := json.Marshal(r.tr.row)
+					a, b, cc := bs.VerifIndexRow(rb, tk.fn)
+					for _, e := range a {
+						fs[e] = true
+					}
+					for _, e := range b {
+						ts[e] = true
+					}
+					for _, e := range cc {
+						fts[e] = true
+					}
+				}
+			}
+			mk := func(set map[string]bool) *bloom.BloomFilter {
+				f := bloom.NewWithEstimates(uint(len(set)+1), cfg.BloomFalsePositiveRate)
+				for e := range set {
+					f.AddString(e)
+				}
+				return f
+			}
+			if c.chance(0.5) {
+				fm.BloomFilters.FieldBloomFilter = mk(fs)
+			}
+			if c.chance(0.5) {
+				fm.BloomFilters.TokenBloomFilter = mk(ts)
+			}
+			if c.chance(0.5) {
+				fm.BloomFilters.FieldTokenBloomFilter = mk(fts)
+			}
+			c.dist("e2e_external_filters", fmt.Sprintf("field=%v token=%v ft=%v", fm.BloomFilters.FieldBloomFilter != nil, fm.BloomFilters.TokenBloomFilter != nil, fm.BloomFilters.FieldTokenBloomFilter != nil))
+		}
 		must(bs.WriteFileFooter(w, &fm))
 		must(w.Close())
 		must(meta.Update(ctx, []bs.WriteOperation{{FileMetadata: &fm, FilePointerBytes: ptr}}, nil))
@@ -547,7 +640,7 @@ func rsemScenario(c *Ctx, sh *shard, scen int) {
 		}
 		pcoq := "None"
 		if hasP {
-			e, ecoq := c.genPExpr(2, []string{"n"}, near)
+			e, ecoq := c.genPExpr(2, []string{"n", "n", "zz"}, near) // "zz" is never indexed: strictness
 			q.Prefilter = &bs.QueryPrefilter{Expression: &e}
 			pcoq = "(Some " + ecoq + ")"
 		}
